@@ -55,18 +55,19 @@ type callState struct {
 }
 
 type cRig struct {
-	st      *hlib.MemStream
-	ep      net.EndPoint
-	inst    int
-	client  bus.Client
-	calls   map[int]*callState
-	mu      sync.Mutex
-	subDone chan struct{}
-	subGot  int32
-	subOn   bool
-	cb      int32
-	holdCh  chan struct{} // armed: the stream's Close blocks at its entry until the channel is closed
-	unheld  bool
+	st        *hlib.MemStream
+	ep        net.EndPoint
+	inst      int
+	client    bus.Client
+	calls     map[int]*callState
+	mu        sync.Mutex
+	subDone   chan struct{}
+	subGot    int32
+	subOn     bool
+	cb        int32
+	subCancel func()
+	holdCh    chan struct{} // armed: the stream's Close blocks at its entry until the channel is closed
+	unheld    bool
 }
 
 const (
@@ -280,7 +281,8 @@ func clientOne(res *hlib.Result, r *cRig, trk *tracker, rec *hlib.Recorder, ops 
 			m.Write(&b)
 			r.st.Feed(b.Bytes())
 		case "sub":
-			_, events, err := r.client.Subscribe(cService, cObject, cEvent)
+			cancel, events, err := r.client.Subscribe(cService, cObject, cEvent)
+			r.subCancel = cancel
 			if err != nil {
 				res.Fail("client/subscribe-error", err.Error(), cse)
 				return 2
@@ -301,6 +303,11 @@ func clientOne(res *hlib.Result, r *cRig, trk *tracker, rec *hlib.Recorder, ops 
 			r.st.FeedEOF()
 		case "close":
 			r.ep.Close()
+		case "cancel":
+			if r.subCancel != nil {
+				r.subCancel()
+				r.subCancel = nil
+			}
 		case "hold":
 			ch := make(chan struct{})
 			r.holdCh = ch
